@@ -93,6 +93,12 @@ Theorem C17_union_distances : forall (F : Type) flt dist (s s' : lstate F) i j d
   nth_error (l_sets F s') (length (l_sets F s)) = Some (Some (set_extend gi gj)).
 Proof. exact union_round_distances. Qed.
 
+(* the matrix a run starts from holds the user's distance of every pair of input sets *)
+Theorem C17_initial_matrix : forall (F : Type) (dist : group -> group -> F) sets s0, l_new F dist sets = Ok s0 ->
+  forall a b ga gb, (a < b)%nat -> nth_error sets a = Some ga -> nth_error sets b = Some gb ->
+  dm_get F (a, b) (l_dm F s0) = Some (dist ga gb).
+Proof. exact l_new_distances. Qed.
+
 Print Assumptions C17_combinations_state_machine.
 Print Assumptions C17_initial_pairs_each_once.
 Print Assumptions C17_closest_is_minimum.
@@ -102,3 +108,4 @@ Print Assumptions C17_single_root_means_n_minus_1_merges.
 Print Assumptions C17_clustering_run.
 Print Assumptions C17_distances_follow_method.
 Print Assumptions C17_union_distances.
+Print Assumptions C17_initial_matrix.
